@@ -256,6 +256,10 @@ func runC12(c *Ctx) {
 										}
 										if dep && dominatesInstr(d.Site, call.(ssa.Instruction)) {
 											nStores++
+										} else if dep && d.Site == ssa.Instruction(d.Store) && len(deepStoresTo(fn, fld)) == 1 &&
+											storedOrAlreadyEqual(fn, d.Store, fld, call.(ssa.Instruction)) {
+											// a cached sockaddr refilled only when it differs from the argument
+											nStores++
 										}
 									}
 								}
@@ -1240,4 +1244,84 @@ func isNilOrSyscallErr(v ssa.Value, call ssa.CallInstruction) bool {
 		return true
 	}
 	return false
+}
+
+// storedOrAlreadyEqual: the store st (field fld := v) need not dominate the call when every path to the call that
+// misses it takes the "equal" edge of a test of v against the field's current content - a cached value refilled only on
+// change. Decided on the CFG: with the store's block and the equal edges removed the call is unreachable from the entry.
+// The caller has established that st is the only store to fld in fn.
+func storedOrAlreadyEqual(fn *ssa.Function, st *ssa.Store, fld *types.Var, call ssa.Instruction) bool {
+	sb, cb := st.Block(), call.Block()
+	if sb == cb || len(fn.Blocks) == 0 {
+		return false
+	}
+	val := stripConv(st.Val)
+	isFieldLoad := func(v ssa.Value) bool {
+		u, ok := stripConv(v).(*ssa.UnOp)
+		if !ok || u.Op != token.MUL {
+			return false
+		}
+		fv, fa := fieldAddrOf(u.X)
+		sfa, _ := st.Addr.(*ssa.FieldAddr)
+		return fv == fld && sfa != nil && accessPath(fa.X) != "" && accessPath(fa.X) == accessPath(sfa.X)
+	}
+	equalEdge := func(b *ssa.BasicBlock) int {
+		if len(b.Instrs) == 0 {
+			return -1
+		}
+		iff, ok := b.Instrs[len(b.Instrs)-1].(*ssa.If)
+		if !ok {
+			return -1
+		}
+		bo, ok := iff.Cond.(*ssa.BinOp)
+		if !ok || (bo.Op != token.EQL && bo.Op != token.NEQ) {
+			return -1
+		}
+		if !((stripConv(bo.X) == val && isFieldLoad(bo.Y)) || (stripConv(bo.Y) == val && isFieldLoad(bo.X))) {
+			return -1
+		}
+		if bo.Op == token.EQL {
+			return 0
+		}
+		return 1
+	}
+	seen := map[*ssa.BasicBlock]bool{}
+	work := []*ssa.BasicBlock{fn.Blocks[0]}
+	for len(work) > 0 {
+		b := work[len(work)-1]
+		work = work[:len(work)-1]
+		if seen[b] || b == sb {
+			continue
+		}
+		seen[b] = true
+		if b == cb {
+			return false
+		}
+		eq := equalEdge(b)
+		for i, su := range b.Succs {
+			if i != eq {
+				work = append(work, su)
+			}
+		}
+	}
+	return true
+}
+
+// accessPath names a value reached from a parameter through field selections and loads only ("" otherwise).
+func accessPath(v ssa.Value) string {
+	switch x := v.(type) {
+	case *ssa.Parameter:
+		return x.Name()
+	case *ssa.UnOp:
+		if x.Op == token.MUL {
+			if p := accessPath(x.X); p != "" {
+				return "*" + p
+			}
+		}
+	case *ssa.FieldAddr:
+		if p := accessPath(x.X); p != "" {
+			return fmt.Sprintf("%s.%d", p, x.Field)
+		}
+	}
+	return ""
 }
